@@ -169,3 +169,10 @@ def g_fan_tuples(args: dict) -> list:
 
 def g_fan_common(args: dict) -> tuple:
     return {"tag": args["tag"], "base": [1, 2, 3]}, [({"i": i, "scale": 10} if i % 3 == 0 else {"i": i}) for i in range(args["n"])]
+
+
+def g_blob(tag: str, blob: str) -> str:
+    """returns what distinguishes two large arguments that differ only in the middle"""
+    with G_LOCK:
+        G_CALLS.setdefault(tag, []).append((len(blob), blob[len(blob) // 2], ()))
+    return blob[len(blob) // 2]
